@@ -935,4 +935,49 @@ theorem C19_truncated (h : Hdr) (hw : h.WF) (vb : Bytes)
       simpa using this
 
 
+/-! ### non-vacuity -/
+
+/-- a concrete legal header: LAS 1.2, point format 0, 20-byte records, no VLR -/
+def exHdr (count : Nat) : Hdr :=
+  { fileSourceId := 7, globalEncoding := 0, guid := List.replicate 16 0, vMajor := 1, vMinor := 2,
+    systemId := [], software := [], doy := 60, year := 2024, fmtByte := 0, recLen := 20, count := count,
+    byReturn := List.replicate 15 0, doubles := List.replicate 12 0, waveformStart := 0, evlrStart := 0, nEvlrs := 0,
+    extraHeader := [], vlrs := [], extraVlr := [] }
+
+theorem exHdr_wf (count : Nat) (h : count ≤ 4294967295) : (exHdr count).WF :=
+  { fsid := by simp [exHdr]
+    ge := by simp [exHdr]
+    guid := by simp [exHdr]
+    major := by simp [exHdr]
+    minor := by simp [exHdr]
+    sys := ⟨fun b hb => by simp [exHdr] at hb, by simp [exHdr]⟩
+    soft := ⟨fun b hb => by simp [exHdr] at hb, by simp [exHdr]⟩
+    doy := by simp [exHdr]
+    year := by simp [exHdr]
+    fmt := by simp [exHdr]
+    recLen := by simp [exHdr]
+    count := by simp only [exHdr, maxPointCount]; simp; omega
+    ret := ⟨by simp [exHdr], by intro r hr; simp only [exHdr, List.mem_replicate] at hr; rw [hr.2]; simp [exHdr]⟩
+    doubles := ⟨by simp [exHdr], by intro d hd; simp only [exHdr, List.mem_replicate] at hd; rw [hd.2]; decide⟩
+    wave := by simp [exHdr]
+    evlr := by simp [exHdr]
+    vlrs := by intro v hv; simp [exHdr] at hv
+    nvlrs := by simp [exHdr] }
+
+/-- non-vacuity of `C19_writer_crash`: a writer session storing three 20-byte records under the header above meets
+    every hypothesis, so every crash image of that session reads as a prefix of those records or fails -/
+example (k : Nat) :
+    let recs : List Rec := List.replicate 3 (List.replicate 20 0)
+    let img := image [] (writerLog (encForm (exHdr 0) []) [recs.flatten] []
+      (encForm (C07.withStats (exHdr 0) recs.length (List.replicate 15 0) (List.replicate 12 0) 0 0) [])) k
+    (∃ e, readFile img = .error e) ∨ (∃ r, readFile img = .ok r ∧ IsPrefix r.records recs) := by
+  intro recs
+  have hw' : (C07.withStats (exHdr 0) recs.length (List.replicate 15 0) (List.replicate 12 0) 0 0).WF := by
+    have : C07.withStats (exHdr 0) recs.length (List.replicate 15 0) (List.replicate 12 0) 0 0 = exHdr 3 := rfl
+    rw [this]; exact exHdr_wf 3 (by decide)
+  exact C19_writer_crash (exHdr 0) (exHdr_wf 0 (by decide)) rfl [] (List.replicate 15 0) (List.replicate 12 0) 0 0 recs hw'
+    (by decide) [recs.flatten] (by simp) [] (by decide)
+    (by intro r hr; simp only [recs, List.mem_replicate] at hr; rw [hr.2]; rfl) k
+
+
 end LasModel.Props.C19
